@@ -46,6 +46,18 @@ func (e *Ev) SetHashID(salt uint64) {
 	e.SetID(id)
 }
 
+// SetHashIDTail is SetHashID with the content hash in the LAST 16 bytes of the 24-byte ID part only: the first 8 bytes
+// carry nothing but the creator's low byte, so many events (all events of one creator with one Lamport time, fork
+// twins included) agree in epoch, Lamport and those 8 bytes. IDs are opaque: only all 24 bytes together identify an event.
+func (e *Ev) SetHashIDTail(salt uint64) {
+	e.SetHashID(salt)
+	full := e.ID().Bytes()
+	var id [24]byte
+	id[7] = byte(e.Creator()) & 1
+	copy(id[8:], full[8:24])
+	e.SetID(id)
+}
+
 // Clone returns a copy with the same fields (ID included).
 func (e *Ev) Clone() *Ev {
 	c := &Ev{Name: e.Name}
